@@ -39,7 +39,7 @@ def run(ctx):
     rep.guarded("tables", L, lambda: rule_tables(facts, rep))
     rep.guarded("scan", L, lambda: rule_scan(facts, rep))
     rep.guarded("distance", L + "distance", lambda: rule_distance(facts, rep))
-    for r, n in (("dispatch", 9), ("tables", 8), ("scan", 16), ("distance", 8)):
+    for r, n in (("dispatch", 9), ("tables", 8), ("scan", 18), ("distance", 8)):
         rep.floor(r, n)
 
 
@@ -200,6 +200,13 @@ def rule_scan(facts, rep):
         rep.check(ok_u, "scan", path, "update-iff-strictly-smaller", "if distance < best_distance { best_index = index; best_distance = distance }", loc(b))
         ok_s = len(st) == 3 and st[2].get("k") == "assignop" and st[2]["op"] == "AddAssign" and hir.is_local(st[2]["l"], "index") and hir.lit_val(st[2]["r"]) == 1
         rep.check(ok_s, "scan", path, "step-1", "", loc(b))
+        # nothing but the scan: exactly [let best_index, let best_distance, let index, while, result] and no early exit
+        kinds = [hir.simp(x).get("k") for x in top]
+        rets = [n for n in hir.walk(b["hir"]) if n.get("k") == "ret"]
+        extra_ifs = [x for x in top if hir.simp(x).get("k") in ("if", "match") and x is not top[-1]]
+        rep.check(kinds[:4] == ["let", "let", "let", "loop"] and len(top) == 5 and not rets and not extra_ifs, "scan", path, "nothing-but-the-scan",
+                  f"the matcher must consist of the scan alone (no fast paths or early returns that bypass it): top-level statements {kinds}, "
+                  f"{len(rets)} return(s)", loc(b))
         # writers of best_index: the initialisation and the update only
         w = [n for n in hir.walk(b["hir"]) if n.get("k") in ("assign", "assignop") and hir.local_name(n["l"]) in ("best_index", "index")]
         rep.check(len(w) == 2, "scan", path, "no-other-writes", f"{len(w)}", loc(b))
